@@ -35,6 +35,10 @@ def facts(ctx):
                        (r"signed_message_digest\s*!=\s*digest\.as_ref\(\)", "message-digest attribute comparison"),
                        (r"validate_timestamp_sig\(&sig_alg,\s*&hash_alg,\s*&sig_val,\s*&tbs,\s*&signing_key_der\)\.is_err\(\)", "CMS signature check"),
                        (r"adjusted_ctp\.clear_ekus\(\);\s*adjusted_ctp\.add_valid_ekus\(TIMESTAMP_OID_STR\.as_bytes\(\)\)", "TSA EKU restriction"),
+                       (r"let has_time_stamping_eku =\s*x509_parser::certificate::X509Certificate::from_der\(&ordered_cert_ders\[0\]\).*?eku\.value\.time_stamping\).*?\.unwrap_or\(false\);\s*if !has_time_stamping_eku \{",
+                        "explicit id-kp-timeStamping requirement (fix a6060c320)"),
+                       (r"None => \{[^}]*?\"timestamp signer certificate not found\"[^}]*?\.validation_status\(TIMESTAMP_UNTRUSTED\)[^}]*?last_err = TimeStampError::Untrusted;\s*continue;",
+                        "report of a missing signer certificate (fix 5b12435f8)"),
                        (r"Some\(&tst\),?\s*\)\s*\.is_err\(\)", "TSA profile checked at the token time"),
                        (r"Some\(signing_time\),?\s*\)\s*\.is_err\(\)", "TSA trust checked at the token time"),
                        (r"if let Some\(gt\) = timestamp_to_generalized_time\(signed_signing_time\)\s*\{[^}]*signing_time\s*=[^}]*tst\.gen_time\s*=\s*gt;", "signing-time attribute replaces genTime")):
@@ -76,7 +80,9 @@ def facts(ctx):
         raise TieBroken("srcfacts: signing_time_from_sign1 changed")
     # validity at the time-stamp time or now
     cp = common.strip_tests(common.src("sdk/src/crypto/cose/certificate_profile.rs"))
-    pb2 = common.fn_body(cp, r"pub fn check_certificate_profile\s*\(", "check_certificate_profile")
+    # (fix 85312f708 moved the body into check_certificate_profile_inner behind a logging wrapper)
+    pb2 = common.fn_body(cp, r"fn check_certificate_profile_inner\s*\(" if "fn check_certificate_profile_inner" in cp
+                         else r"pub fn check_certificate_profile\s*\(", "check_certificate_profile")
     if not re.search(r"if let Some\(tst_info\) = _tst_info_opt \{.*?tst_info\.gen_time\.clone\(\)\.into\(\);\s*if !signcert\.validity\(\)\.is_valid_at\(.*?"
                      r"\} else \{.*?SystemTime::now\(\).*?if !signcert\.validity\(\)\.is_valid_at\(", pb2, re.S):
         raise TieBroken("srcfacts: the validity-at-signing-time rule of check_certificate_profile changed")
